@@ -20,7 +20,8 @@
                                   symlink, kind 1: a regular file sits at the directory's name) / undone.
                                   rotate() calls create_dir_all(parent(dst)) right after the hook call
                                   of the step whose destination is slot base+j, before touching anything:
-                                  that step fails = fault `Some (count-1-j)`; for j = 0 the directory of
+                                  that step fails = fault `Some (count-1-j)` (kind 1: already the step
+                                  before, whose source lies in that directory: ENOTDIR); for j = 0 the directory of
                                   dst_0 is created before the first hook call: Err with no hook call
           (2)                     an operator error: a non-empty directory appears at the top
                                   archive name (name (b+c-1), holding a file "keep")
@@ -97,8 +98,12 @@ Section Run.
       let fault0 := if nohook then None else fault in
       let eff1 := if obst && obstructed (afs s) then Some O else fault0 in
       let eff := match dobst with
-                 | Some (_, j) =>
-                   let kd := (N.to_nat (c_count cf) - 1 - j)%nat in
+                 | Some (kind, j) =>
+                   (* a regular file at the directory name also breaks the step whose SOURCE lies
+                      in it (rename: ENOTDIR, not NotFound), one step earlier *)
+                   let kd := if negb (kind =? 0) && (j + 2 <=? N.to_nat (c_count cf))%nat
+                             then (N.to_nat (c_count cf) - 2 - j)%nat
+                             else (N.to_nat (c_count cf) - 1 - j)%nat in
                    match j, eff1 with
                    | O, _ => Some O
                    | _, Some k => Some (Nat.min k kd)
